@@ -81,6 +81,17 @@ def call_builtin(I, fn: Builtin, args, kwargs):
             from .interp import builtin_exc
 
             return builtin_exc(name, tuple(args))
+    if h is None and (name.startswith(("other:<Logger ", "other:<RootLogger ")) or name.startswith("logging.")):
+        # logging has no effect on any value the contracts speak about (arguments were already evaluated by the interpreter)
+        meth = name.rsplit(".", 1)[-1]
+        if meth in ("debug", "info", "warning", "warn", "error", "exception", "critical", "log"):
+            return None
+        if meth == "isEnabledFor":
+            from .smt import fresh_bool
+
+            return fresh_bool("log_enabled")
+        if meth == "getLogger":
+            return Builtin("other:<Logger created-in-function>")
     if h is None:
         raise OutOfReach(f"builtin/external {name} is not modelled")
     return h(I, args, kwargs)
